@@ -144,7 +144,9 @@ def run(ctx):
         ctx.coverage["generated_inputs"] = {"GenWait.v": V.sha(GEN)}
     ex = (rep or {}).get("extra", {})
     ctx.coverage["rule"] = (
-        "scenario scripts over {block, deliver (n messages in ONE datagram / separate datagrams / short buffer), open window, new "
+        "scenario scripts over {block, deliver (n messages in ONE datagram / separate datagrams / short buffer; 3-4 readers with mixed "
+        "buffer sizes x one datagram with 1-3 messages incl. messages longer than a buffer, so that each success path of Read is "
+        "in turn the last to pass the token on), open window, new "
         "peers, SetReadDeadline/SetWriteDeadline/SetDeadline/Listener.SetReadDeadline sequences before-call, past, none->set, "
         "set->later, set->earlier, set->zero->set, set->past, cleared, Close, socket error (in-memory conn's ReadFrom/WriteTo "
         "failing), after-Close} x {Read, Write, Accept} x 1..3 callers, real time, >= %s ms between causally ordered events, "
